@@ -13,3 +13,39 @@ pub fn c01_main() {
     let n = c01_helper(1);
     println!("x{}", s);
 }
+
+// ---- C15: a checker that warns when the id IS present (negation missing)
+pub struct Item {
+    pub id: u32,
+    pub parent: u32,
+}
+pub struct Mdl {
+    pub items: Vec<Item>,
+    pub parents: Vec<Item>,
+}
+pub fn c15_check(model: &Mdl) -> Vec<u32> {
+    let ids: std::collections::HashSet<u32> = model.parents.iter().map(|p| p.id).collect();
+    let mut warnings = Vec::new();
+    model.items.iter().for_each(|i| {
+        if ids.contains(&i.parent) {
+            warnings.push(i.id);
+        }
+    });
+    warnings
+}
+
+// ---- C16: a purge whose used set forgets one of the two reference fields
+#[derive(Clone)]
+pub struct PItem {
+    pub id: u32,
+    pub parent: u32,
+    pub other: Option<u32>,
+}
+pub struct PModel {
+    pub items: Vec<PItem>,
+    pub parents: Vec<PItem>,
+}
+pub fn c16_purge(model: &mut PModel) {
+    let used: std::collections::HashSet<u32> = model.items.iter().map(|v| v.parent).collect();
+    model.parents = model.parents.iter().cloned().filter(|v| used.contains(&v.id)).collect();
+}
